@@ -917,7 +917,7 @@ func c08Delivery(c *Ctx, provs []*provider) {
 						}
 					}
 				}
-				if r, ok := in.(*ssa.Return); ok && len(r.Results) == 2 && types.Identical(r.Results[1].Type(), errType) {
+				if r, ok := in.(*ssa.Return); ok && len(r.Results) == 2 && types.Identical(r.Results[1].Type(), errType) && !isBasicType(r.Results[0].Type()) {
 					if IsNilConst(r.Results[1]) && !IsNilConst(r.Results[0]) {
 						deliveries = append(deliveries, in)
 					} else if !IsNilConst(r.Results[0]) && !IsNilConst(r.Results[1]) {
@@ -1147,6 +1147,17 @@ func incrementOf(fn *ssa.Function, counter ssa.Value) func(ssa.Instruction) bool
 		return func(in ssa.Instruction) bool { return incs[in] }
 	}
 	if u, ok := counter.(*ssa.UnOp); ok && u.Op == token.MUL {
+		// the counter of the caller handed in by pointer (scanPass(ctx, scanner, &ammoNum)): stores through the parameter
+		if pr, ok := u.X.(*ssa.Parameter); ok {
+			return func(in ssa.Instruction) bool {
+				st, ok := in.(*ssa.Store)
+				if !ok || st.Addr != ssa.Value(pr) {
+					return false
+				}
+				_, isBin := st.Val.(*ssa.BinOp)
+				return isBin
+			}
+		}
 		if a, ok := u.X.(*ssa.Alloc); ok {
 			return func(in ssa.Instruction) bool {
 				st, ok := in.(*ssa.Store)
@@ -1332,4 +1343,10 @@ func isTupleWithError(cl *ssa.Call) bool {
 		}
 	}
 	return false
+}
+
+// isBasicType: bool, numbers, strings (a (bool, error) result pair is a status, not a delivered entry).
+func isBasicType(t types.Type) bool {
+	_, ok := t.Underlying().(*types.Basic)
+	return ok
 }
